@@ -1,15 +1,16 @@
 package model
 
 import (
+	"bytes"
 	"crypto/sha512"
 	"math/big"
 )
 
 // Schnorrkel (sr25519) protocol logic over the Merlin model and math/big: key
 // expansion (uniform and Ed25519-style), secret-key generation from an entropy
-// stream, witness scalar, challenge and s.  Group operations (scalar * basepoint,
-// Ristretto encode/decode) are NOT re-implemented here; callers pass them in as
-// functions backed by the library (trusted layer, stated in DESIGN 3.5).
+// stream, witness scalar, challenge and s.  Group operations come from the model's
+// own edwards25519 / ristretto255 code (bigcurve.go, bigristretto.go); as first
+// written they were passed in as functions backed by the library.
 
 var GroupL, _ = new(big.Int).SetString("7237005577332262213973186563042994240857116359379907606001950938285454250989", 10)
 
@@ -130,4 +131,25 @@ func SrDecodeSignature(b []byte) (R, s []byte, ok bool) {
 		return nil, nil, false
 	}
 	return append([]byte{}, b[:32]...), s, true
+}
+
+// SrMulBase: compressed ristretto255 encoding of s*B for a canonical scalar (LE),
+// computed with the model's own group arithmetic.
+func SrMulBase(sLE []byte) []byte { return REncode(BBase().Mul(LEToBig(sLE))) }
+
+// SrVerify is the schnorrkel verification decision for delivered bytes:
+// encodings (length, marker, s < L, canonical ristretto255 R and public key),
+// challenge derivation and the equation encode(s*B - k*A) == R, all in the model.
+func SrVerify(t0 *MTranscript, pk, sig []byte) bool {
+	R, s, ok := SrDecodeSignature(sig)
+	if !ok || len(pk) != 32 {
+		return false
+	}
+	A := RDecode(pk)
+	if A == nil || RDecode(R) == nil {
+		return false
+	}
+	k := LEToBig(SrChallenge(t0, pk, R))
+	d := BBase().Mul(LEToBig(s)).Sub(A.Mul(k))
+	return bytes.Equal(REncode(d), R)
 }
